@@ -592,6 +592,10 @@ def campaign(ctx):
     base = common.scratch_dir("c20")
     try:
         rng = ctx.rng
+        # 0 corpus first: stored witnesses (known findings, minimised past failures)
+        for f in sorted((common.VERIF / "corpus" / "C20").glob("*.json")):
+            replay_one(ctx, json.loads(f.read_text())["input"])
+            ctx.dist["corpus"] += 1
         model_rows: list = []
         # 1a exhaustive small scope (+ corpus witnesses of F5)
         names = list(small_names(3)) + ["a/b", "a b", "a/../b", "b", "a\n", "a.b"]
